@@ -25,62 +25,64 @@ Definition mname_eqb (a b : mname) : bool :=
 Lemma mname_eqb_eq a b : mname_eqb a b = true -> a = b.
 Proof. destruct a, b; try discriminate; reflexivity. Qed.
 
-Definition mouse_event_code (m : mname) (mods : N) (motion : bool) : N :=
-  mouse_code m + 4 * mods + (if motion then 32 else 0).
-
-Definition all_mnames : list mname := [MLeft; MMiddle; MRight; MMove; MWheelDown; MWheelUp].
-Definition mouse_check : bool :=
-  forallb (fun m => forallb (fun press => forallb (fun motion =>
-    sweep1 8 (fun mods =>
-      let '(n, md) := mouse_fields (mouse_event_code m mods motion) press in
-      mname_eqb n m && (md =? (if press then N.lor mods MOD_PRESS else mods))))
-    [true; false]) [true; false]) all_mnames.
-Lemma mouse_check_ok :
-  forallb (fun m => forallb (fun press => forallb (fun motion =>
-    sweep1 8 (fun mods =>
-      let '(n, md) := mouse_fields (mouse_event_code m mods motion) press in
-      mname_eqb n m && (md =? (if press then N.lor mods MOD_PRESS else mods))))
-    [true; false]) [true; false]) all_mnames = true.
+(* the code's bit tests against the table of the protocol document, every code 0..255 *)
+Definition mouse_code_ok (press : bool) (code : N) : bool :=
+  match mouse_fields code press, mouse_name code with
+  | Some (n, md), Some m =>
+      mname_eqb n m && (md =? (if press then mouse_mods code + MOD_PRESS else mouse_mods code))
+  | None, None => true
+  | _, _ => false
+  end.
+Lemma mouse_check_ok : forallb (fun press => sweep1 256 (mouse_code_ok press)) [true; false] = true.
 Proof. vm_compute. reflexivity. Qed.
 
-Lemma mouse_fields_ok m mods press motion :
-  mods < 8 ->
-  mouse_fields (mouse_event_code m mods motion) press = (m, if press then N.lor mods MOD_PRESS else mods).
+Lemma mouse_fields_spec code press :
+  code < 256 ->
+  mouse_fields code press
+  = match mouse_name code with
+    | Some m => Some (m, if press then mouse_mods code + MOD_PRESS else mouse_mods code)
+    | None => None
+    end.
 Proof.
-  intros Hm. pose proof mouse_check_ok as H. rewrite forallb_forall in H.
-  assert (Hin : In m all_mnames) by (destruct m; cbn; tauto). specialize (H m Hin). cbv beta in H.
-  rewrite forallb_forall in H. assert (Hp : In press [true; false]) by (destruct press; cbn; tauto).
-  specialize (H press Hp). cbv beta in H. rewrite forallb_forall in H.
-  assert (Hmo : In motion [true; false]) by (destruct motion; cbn; tauto). specialize (H motion Hmo). cbv beta in H.
-  pose proof (sweep1_sound 8 _ H mods Hm) as Hs. cbv beta in Hs.
-  destruct (mouse_fields (mouse_event_code m mods motion) press) as [n md].
+  intros Hc. pose proof mouse_check_ok as H. rewrite forallb_forall in H.
+  assert (Hp : In press [true; false]) by (destruct press; cbn; tauto). specialize (H press Hp).
+  pose proof (sweep1_sound 256 _ H code Hc) as Hs. unfold mouse_code_ok in Hs.
+  destruct (mouse_fields code press) as [[n md]|], (mouse_name code) as [m|]; try discriminate; [|reflexivity].
   apply andb_true_iff in Hs. destruct Hs as [H1 H2]. apply mname_eqb_eq in H1. apply N.eqb_eq in H2. subst. reflexivity.
 Qed.
 
 Lemma last_byte_app pre fin : last_byte (pre ++ [fin]) = fin.
 Proof. unfold last_byte. apply last_last. Qed.
 
-Theorem single_mouse m mods press motion row col :
-  wf decmode_all prod_key_table (RMouse m mods press motion row col) = true ->
-  single (RMouse m mods press motion row col).
+(* every button code 0..255: a named button gives the mouse event, an unnamed one is not an event *)
+Theorem single_mouse code press row col :
+  wf decmode_all prod_key_table (RMouse code press row col) = true ->
+  single (RMouse code press row col).
 Proof.
-  cbn [wf]. intros Hwf. rewrite !andb_true_iff in Hwf. destruct Hwf as [[Hmods _] _].
+  cbn [wf]. intros Hwf. rewrite !andb_true_iff in Hwf. destruct Hwf as [[Hcode _] _].
   unfold single, prod_denote, denote. cbn [print].
-  set (code := mouse_code m + 4 * mods + (if motion then 32 else 0)).
   set (fin := if press then 77 else 109).
   replace (CSI ++ [60] ++ digits code ++ [59] ++ digits (col + 1) ++ [59] ++ digits (row + 1) ++ [fin])
     with ([27; 91; 60] ++ (digits code ++ [59] ++ digits (col + 1) ++ [59] ++ digits (row + 1)) ++ [fin])
     by list_eq.
-  fam_tac check_mouse; [| discriminate |].
-  - unfold pat_mouse. apply matches_seq_lit. rewrite <- !app_assoc.
+  assert (Hm : matches pat_mouse ([27; 91; 60] ++ (digits code ++ [59] ++ digits (col + 1) ++ [59] ++ digits (row + 1)) ++ [fin])).
+  { unfold pat_mouse. apply matches_seq_lit. rewrite <- !app_assoc.
     apply MSeq; [apply matches_num|]. apply matches_seq_lit. apply MSeq; [apply matches_num|].
-    apply matches_seq_lit. apply MSeq; [apply matches_num|]. apply MSet. unfold fin. destruct press; reflexivity.
-  - payload_unfold. unfold dec_mouse.
+    apply matches_seq_lit. apply MSeq; [apply matches_num|]. apply MSet. unfold fin. destruct press; reflexivity. }
+  assert (Hp : ev_payload decmode_codes decstatus_codes 7
+                 ([27; 91; 60] ++ (digits code ++ [59] ++ digits (col + 1) ++ [59] ++ digits (row + 1)) ++ [fin])
+               = match mouse_name code with
+                 | Some m => Some (EMouse m (if press then mouse_mods code + MOD_PRESS else mouse_mods code) row col)
+                 | None => None
+                 end).
+  { payload_unfold. unfold dec_mouse.
     rewrite (sl_mid [27; 91; 60] _ [fin]), numbers3, !checked_dec_succ.
     rewrite app_assoc, last_byte_app.
     replace (fin =? 77) with press by (unfold fin; destruct press; reflexivity).
-    change code with (mouse_event_code m mods motion).
-    rewrite (mouse_fields_ok m mods press motion) by lia. reflexivity.
+    rewrite (mouse_fields_spec code press) by lia. destruct (mouse_name code); reflexivity. }
+  destruct (mouse_name code) as [m|].
+  - eapply (fam_single _ _ _ _ check_mouse); [exact Hm| discriminate| exact Hp].
+  - eapply (fam_single_raw _ _ _ check_mouse); [exact Hm| discriminate| exact Hp].
 Qed.
 
 (* ---- size: CSI 8 ; h ; w t CSI 4 ; h ; w t ---- *)
@@ -89,9 +91,6 @@ Definition pat_size_part (k : N) : pat :=
 Definition pat_size : pat := PSeq (pat_size_part 56) (pat_size_part 52).
 Lemma check_size : family_check event_dfa pat_size (fam_good 11) = true.
 Proof. vm_compute. reflexivity. Qed.
-
-Lemma not_in_app {A} (x : A) a b : ~ In x a -> ~ In x b -> ~ In x (a ++ b).
-Proof. intros Ha Hb H. apply in_app_or in H. tauto. Qed.
 
 Lemma size_part_no27 k a b : k <> 27 -> ~ In 27 ([91; k; 59] ++ (digits a ++ [59] ++ digits b) ++ [116]).
 Proof.
@@ -153,40 +152,85 @@ Proof.
     apply MSeq; [apply MSeq; [apply matches_num| apply MOptS, MLit]|]. apply plus_star, IH.
 Qed.
 
-Lemma set_insert_last acc x : (forall y, In y acc -> y < x) -> set_insert x acc = acc ++ [x].
-Proof.
-  induction acc as [|y acc IH]; intros H; [reflexivity|]. cbn [set_insert app].
-  assert (Hy : y < x) by (apply H; left; reflexivity).
-  replace (x <? y) with false by lia. replace (x =? y) with false by lia. f_equal. apply IH.
-  intros z Hz. apply H. right. exact Hz.
-Qed.
-
 Lemma strictly_increasing_cons a l :
   strictly_increasing (a :: l) = true -> (forall y, In y l -> a < y) /\ strictly_increasing l = true.
 Proof.
   revert a. induction l as [|b l IH]; intros a H; [split; [intros y []| reflexivity]|].
-  cbn [strictly_increasing] in H. apply andb_true_iff in H. destruct H as [Hab Hl].
+  change (strictly_increasing (a :: b :: l)) with ((a <? b) && strictly_increasing (b :: l)) in H.
+  apply andb_true_iff in H. destruct H as [Hab Hl].
   destruct (IH b Hl) as [Hb Hl']. split; [|exact Hl].
   intros y [->|Hy]; [lia|]. specialize (Hb y Hy). lia.
 Qed.
 
-Lemma fold_insert_sorted : forall l acc,
-  strictly_increasing l = true -> (forall x y, In x acc -> In y l -> x < y) ->
-  fold_left (fun s x => set_insert x s) l acc = acc ++ l.
+Lemma strictly_increasing_intro a l :
+  (forall y, In y l -> a < y) -> strictly_increasing l = true -> strictly_increasing (a :: l) = true.
 Proof.
-  induction l as [|a l IH]; intros acc Hs Hacc; cbn [fold_left]; [rewrite app_nil_r; reflexivity|].
-  destruct (strictly_increasing_cons a l Hs) as [Ha Hl].
-  rewrite set_insert_last by (intros y Hy; apply Hacc; [exact Hy| left; reflexivity]).
-  rewrite IH; [rewrite <- app_assoc; reflexivity| exact Hl|].
-  intros x y Hx Hy. apply in_app_or in Hx. destruct Hx as [Hx|[->|[]]].
-  - apply Hacc; [exact Hx| right; exact Hy].
-  - apply Ha, Hy.
+  intros Ha Hl. destruct l as [|b l]; [reflexivity|].
+  change (strictly_increasing (a :: b :: l)) with ((a <? b) && strictly_increasing (b :: l)). rewrite Hl.
+  assert (a < b) by (apply Ha; left; reflexivity). replace (a <? b) with true by lia. reflexivity.
+Qed.
+
+Lemma set_insert_In x l y : In y (set_insert x l) <-> y = x \/ In y l.
+Proof.
+  induction l as [|z l IH]; cbn [set_insert]; [cbn; intuition|].
+  destruct (x <? z) eqn:E1; [cbn; intuition|]. destruct (x =? z) eqn:E2.
+  - apply N.eqb_eq in E2. subst. cbn. intuition.
+  - cbn [In]. rewrite IH. intuition.
+Qed.
+
+Lemma set_insert_sorted x l : strictly_increasing l = true -> strictly_increasing (set_insert x l) = true.
+Proof.
+  induction l as [|z l IH]; intros H; [reflexivity|]. cbn [set_insert].
+  destruct (strictly_increasing_cons z l H) as [Hz Hl].
+  destruct (x <? z) eqn:E1.
+  - apply strictly_increasing_intro; [|exact H]. intros y [->|Hy]; [lia|]. specialize (Hz y Hy). lia.
+  - destruct (x =? z) eqn:E2; [exact H|]. apply strictly_increasing_intro; [|apply IH, Hl].
+    intros y Hy. apply set_insert_In in Hy. destruct Hy as [->|Hy]; [lia| apply Hz, Hy].
+Qed.
+
+Lemma sorted_unique : forall a b,
+  strictly_increasing a = true -> strictly_increasing b = true -> (forall x, In x a <-> In x b) -> a = b.
+Proof.
+  induction a as [|x a IH]; intros [|y b] Ha Hb H.
+  - reflexivity.
+  - exfalso. apply (proj2 (H y)). left. reflexivity.
+  - exfalso. apply (proj1 (H x)). left. reflexivity.
+  - destruct (strictly_increasing_cons x a Ha) as [Hx Ha']. destruct (strictly_increasing_cons y b Hb) as [Hy Hb'].
+    assert (x = y).
+    { destruct (proj1 (H x) (or_introl eq_refl)) as [E|Hin]; [auto|].
+      destruct (proj2 (H y) (or_introl eq_refl)) as [E|Hin2]; [auto|].
+      specialize (Hy x Hin). specialize (Hx y Hin2). lia. }
+    subst y. f_equal. apply IH; [exact Ha'| exact Hb'|]. intros z. split; intros Hz.
+    + destruct (proj1 (H z) (or_intror Hz)) as [E|Hin]; [|exact Hin]. subst z. specialize (Hx x Hz). lia.
+    + destruct (proj2 (H z) (or_intror Hz)) as [E|Hin]; [|exact Hin]. subst z. specialize (Hy x Hz). lia.
+Qed.
+
+Lemma sd_insert_eq x l : sd_insert x l = set_insert x l.
+Proof. induction l as [|y l IH]; [reflexivity|]. cbn [sd_insert set_insert]. rewrite IH. reflexivity. Qed.
+
+Lemma fold_left_insert_spec : forall l acc,
+  strictly_increasing acc = true ->
+  strictly_increasing (fold_left (fun s x => set_insert x s) l acc) = true
+  /\ forall y, In y (fold_left (fun s x => set_insert x s) l acc) <-> In y l \/ In y acc.
+Proof.
+  induction l as [|a l IH]; intros acc Hacc; cbn [fold_left]; [split; [exact Hacc| cbn; intuition]|].
+  destruct (IH (set_insert a acc) (set_insert_sorted a acc Hacc)) as [H1 H2]. split; [exact H1|].
+  intros y. rewrite H2, set_insert_In. cbn [In]. intuition.
+Qed.
+
+(* the specification: sort_dedup l is THE strictly increasing list with the elements of l *)
+Lemma sort_dedup_spec l :
+  strictly_increasing (sort_dedup l) = true /\ forall y, In y (sort_dedup l) <-> In y l.
+Proof.
+  unfold sort_dedup. induction l as [|a l [IH1 IH2]]; [split; [reflexivity| cbn; intuition]|].
+  cbn [fold_right]. rewrite sd_insert_eq. split; [apply set_insert_sorted, IH1|].
+  intros y. rewrite set_insert_In, IH2. cbn [In]. intuition.
 Qed.
 
 Theorem single_da attrs :
   wf decmode_all prod_key_table (RDevAttrs attrs) = true -> single (RDevAttrs attrs).
 Proof.
-  cbn [wf]. intros Hwf. rewrite !andb_true_iff in Hwf. destruct Hwf as [[Hne Hpos] Hinc].
+  cbn [wf]. intros Hwf. rewrite !andb_true_iff in Hwf. destruct Hwf as [Hne Hpos].
   assert (Hne' : attrs <> []) by (destruct attrs; [discriminate| discriminate]).
   unfold single, prod_denote, denote. cbn [print].
   replace (CSI ++ [63] ++ join_with [59] (map digits attrs) ++ [99])
@@ -198,7 +242,9 @@ Proof.
     assert (Hf : filter (fun v => 0 <? v) attrs = attrs).
     { clear -Hpos. induction attrs as [|a l IH]; [reflexivity|]. cbn [forallb] in Hpos. apply andb_true_iff in Hpos.
       destruct Hpos as [Ha Hl]. apply andb_true_iff in Ha. destruct Ha as [Ha _]. cbn [filter]. rewrite Ha, (IH Hl). reflexivity. }
-    rewrite Hf, fold_insert_sorted; [reflexivity| exact Hinc| intros x y []].
+    rewrite Hf. f_equal. f_equal.
+    destruct (fold_left_insert_spec attrs [] eq_refl) as [M1 M2]. destruct (sort_dedup_spec attrs) as [S1 S2].
+    apply sorted_unique; [exact M1| exact S1|]. intros x. rewrite M2, S2. cbn [In]. intuition.
 Qed.
 
 (* ---- bracketed paste ---- *)
